@@ -100,6 +100,7 @@ type LTA struct {
 	inStop    *types.Func
 	regRemove *ssa.Function
 	applyMW   *ssa.Function
+	invokeFn  *ssa.Function
 	memo      map[string]*lsummary
 	inprog    map[string]bool
 	roundSeen map[string]bool
@@ -152,6 +153,7 @@ func (w *World) runLTA() *LTA {
 	}
 	start := w.Method("actor", "process", "Start")
 	invoke := w.Method("actor", "process", "Invoke")
+	a.invokeFn = invoke
 	shutdown := w.Method("actor", "process", "Shutdown")
 	if start == nil || invoke == nil || shutdown == nil {
 		a.problems = append(a.problems, "actor.process does not implement Processer (Start/Invoke/Shutdown)")
@@ -512,6 +514,9 @@ func (a *LTA) analyze(fn *ssa.Function, args map[int]labs, st LSt, deferredPanic
 						st.Inc = incNew
 					case sameNamed(n, a.procT) && name == "mbuffer":
 						if c, ok := ins.Val.(*ssa.Const); ok && c.IsNil() {
+							if st.MB == 1 && !st.Dead {
+								report("restart-buffer-dropped", "mbuffer=nil", st, ins.Pos())
+							}
 							st.MB = 0
 						} else {
 							st.MB = 1
@@ -541,12 +546,12 @@ func (a *LTA) analyze(fn *ssa.Function, args map[int]labs, st LSt, deferredPanic
 				if c != aFalse {
 					nf := fr.clone()
 					a.refine(nf, ins.Cond, true)
-					work = append(work, item{blk.Succs[0].Index, 0, st, nf})
+					work = append(work, item{blk.Succs[0].Index, 0, a.refineState(st, ins.Cond, true), nf})
 				}
 				if c != aTrue {
 					nf := fr.clone()
 					a.refine(nf, ins.Cond, false)
-					work = append(work, item{blk.Succs[1].Index, 0, st, nf})
+					work = append(work, item{blk.Succs[1].Index, 0, a.refineState(st, ins.Cond, false), nf})
 				}
 				break instrs
 			case *ssa.Jump:
@@ -625,6 +630,9 @@ func (a *LTA) analyze(fn *ssa.Function, args map[int]labs, st LSt, deferredPanic
 						}
 					}
 					if callee != nil && a.M[callee] {
+						if callee == a.invokeFn && len(com.Args) == 2 && strings.HasSuffix(a.w.pathOf(com.Args[1]), ".mbuffer") && st.MB == 1 {
+							st.MB = 2 // the pending restart buffer is being replayed
+						}
 						cs := a.analyze(callee, a.absArgs(fr, com), st, false)
 						absorb(cs)
 						ii := i
@@ -690,7 +698,9 @@ func (a *LTA) checkDeliver(report reporter, st *LSt, pos token.Pos) bool {
 		} else {
 			report("delivery-after-Stopped", ev, *st, pos)
 		}
-		return false
+		// reported, but the path is followed further (the incarnation stays "stopped"):
+		// abandoning it would hide what happens next on a path that carries a known finding.
+		return true
 	}
 	switch st.Msg {
 	case mInit:
@@ -848,6 +858,31 @@ func (a *LTA) evalCond(fr *lframe, st LSt, c ssa.Value) labs {
 		}
 	}
 	return aUnk
+}
+
+// refineState: on the edge where len(p.mbuffer) is known to be 0 the restart buffer is empty.
+func (a *LTA) refineState(st LSt, c ssa.Value, taken bool) LSt {
+	for {
+		if u, ok := c.(*ssa.UnOp); ok && u.Op == token.NOT {
+			c = u.X
+			taken = !taken
+			continue
+		}
+		break
+	}
+	if b, ok := c.(*ssa.BinOp); ok && a.isLenOfField(b.X, a.procT, "mbuffer") && isZero(b.Y) {
+		empty := false
+		switch b.Op {
+		case token.GTR, token.NEQ:
+			empty = !taken
+		case token.EQL, token.LEQ:
+			empty = taken
+		}
+		if empty {
+			st.MB = 0
+		}
+	}
+	return st
 }
 
 func isZero(v ssa.Value) bool {
